@@ -24,7 +24,7 @@ RULE = ('one run = a history of 1..7 operations on one long-lived table pair (fu
 SHAPE_MEASURE = 'distinct (tuple of history op kinds, which left residue, api used) shapes'
 ASSUMPTIONS = ['names are <= 19 bytes + NUL as the kernel strlcpy()s them; a first record of 64 zero bytes is never generated '
                '(indistinguishable from padding for any parser)']
-API = ('pk', 'kd_new', 'kd_same')
+API = ('pk', 'kd_new', 'kd_same', 'kd_noargs', 'pk_rebind')
 
 
 def _gen_file(rng, version=2, arbitrary=None):
@@ -34,7 +34,7 @@ def _gen_file(rng, version=2, arbitrary=None):
     w = worlds.gen_writer(rng, version, threads, 6)
     if version == 2:
         w['pad'] = rng.pick([0, 0, 0, 1, 2, 7, 8, 63, 64, 65, 128, 1000, rng.randint(0, 300), 4096 - 0x120,
-                             16384 - 0x120 if rng.chance(0.05) else 0])
+                             rng.pick([16384 - 0x120, 16384, 16385, 16448, 20000, 32768 - 0x120, 65536 + 3, 70000]) if rng.chance(0.08) else 0])
         if rng.chance(0.15):
             w['tmap'] = []
     f['writer'] = w
@@ -115,6 +115,7 @@ def execute(scn):
     pk = tool.pk_mod.PyKdebugParser()
     tp, pn = pk.threads_pids, pk.pids_names
     kd_same = tool.kdbuf_mod.KdBufParser(tp, pn)
+    state = {'kd': None}
     if api == 'kd_same':
         bump('probe:same_kdbuf_object_reused')
 
@@ -123,6 +124,11 @@ def execute(scn):
             return pk.kevents(SimReader(data))
         if api == 'kd_new':
             return tool.kdbuf_mod.KdBufParser(tp, pn).parse(SimReader(data))
+        if api == 'kd_noargs':
+            state['kd'] = tool.kdbuf_mod.KdBufParser()      # every object owns its tables
+            return state['kd'].parse(SimReader(data))
+        if api == 'pk_rebind':
+            return pk.kevents(SimReader(data))
         return kd_same.parse(SimReader(data))
     hist = []
     shape = []
@@ -165,6 +171,13 @@ def execute(scn):
             hist.append([op, 'exc', type(e).__name__])
         shape.append(op + ('+' if (dict(tp), dict(pn)) != before else ''))
         hist.append([op, len(tp), len(pn)])
+    if api == 'pk_rebind':
+        # the caller gives the long-lived object a fresh pair of tables for the next dump (keeping the old pair for itself)
+        old_tp, old_pn = dict(pk.threads_pids), dict(pk.pids_names)
+        kept_tp, kept_pn = pk.threads_pids, pk.pids_names
+        pk.threads_pids, pk.pids_names = {}, {}
+        tp, pn = pk.threads_pids, pk.pids_names
+        bump('tables_rebound')
     f = scn['judged']
     data, rb = _file_bytes(f)
     w = f['writer']
@@ -200,7 +213,21 @@ def execute(scn):
     if zero_lead:
         bump('probe:first_record_leading_zero')
     viols = []
+    viols_pre = None
     items, exc = common.drain(lambda: start(data))
+    if api == 'kd_noargs' and state['kd'] is not None:
+        judged_kd = state['kd']
+        tp, pn = judged_kd.threads_pids, judged_kd.pids_names
+        # afterwards ANOTHER argument-less object parses a different dump: this object's tables are its own
+        other = tool.kdbuf_mod.KdBufParser()
+        odata, _orb = _file_bytes(scn['history'][0]['file']) if scn.get('history') and 'file' in scn['history'][0] else (None, None)
+        if odata is not None:
+            common.drain(lambda: other.parse(SimReader(odata)))
+            bump('other_argless_object_parsed_after')
+    if api == 'pk_rebind' and (kept_tp != old_tp or kept_pn != old_pn) and exc is None:
+        viols_pre = {'tag': 'old-tables-overwritten', 'sig': 'rebind', 'detail': 'the pair of tables the caller kept from the previous request was modified by the next one'}
+    else:
+        viols_pre = None
     want = [records.ref_decode(b) for b in rb]
     got = [common.ev_tuple(e) for e in items if not common.is_log(e)]
     suffix = '' if not zero_lead else '-first-record-begins-with-zero-bytes'
@@ -224,6 +251,8 @@ def execute(scn):
             missing = {k: v for k, v in want_pn.items() if k not in pn}
             viols.append({'tag': 'names-table', 'sig': 'stale' if any(k not in want_pn for k in extra) else ('value' if extra else 'missing'),
                           'detail': 'after history %r: unexpected %r missing %r' % (shape, extra, missing)})
+    if viols_pre:
+        viols.append(viols_pre)
     hist.append(['judged', len(got), type(exc).__name__ if exc else None, sorted(tp.items()), sorted(pn.items())])
     return {'violations': viols, 'digest': digest_of(scn, hist), 'stats': stats,
             'nontrivial': bool(left_residue or dup), 'shape': repr((tuple(shape), api)),
